@@ -93,17 +93,23 @@ func (cj *CookieJar) getCookiesByHost(host string) []*fasthttp.Cookie {
 	now := time.Now()
 	cookies := cj.hostCookies[host]
 
-	for i := 0; i < len(cookies); i++ {
-		c := cookies[i]
-		// Remove expired cookies.
+	// Remove expired cookies from the jar itself, not only from the returned slice.
+	kept := cookies[:0]
+	for _, c := range cookies {
 		if !c.Expire().Equal(fasthttp.CookieExpireUnlimited) && c.Expire().Before(now) {
-			cookies = append(cookies[:i], cookies[i+1:]...)
 			fasthttp.ReleaseCookie(c)
-			i--
+			continue
 		}
+		kept = append(kept, c)
+	}
+	for i := len(kept); i < len(cookies); i++ {
+		cookies[i] = nil
+	}
+	if len(kept) != len(cookies) {
+		cj.hostCookies[host] = kept
 	}
 
-	return cookies
+	return kept
 }
 
 // Set stores the given cookies for the specified URI host. If a cookie key already exists,
